@@ -221,9 +221,9 @@ def gen(tier, rng):
                                               [4, big], [5, big], [10, big, 0, 1], [10, 0, big, 1],
                                               [10, big, big, 1], [6, single(big), ALL], [6, ALL, rng_(big, big)],
                                               [6, rng_(1, big), rng_(0, big)]]])
-    for _ in range(3000 if quick else 40000):
+    for _ in range(3000 if quick else 12000):
         yield random_history(rng, 40)
-    for _ in range(300 if quick else 3000):
+    for _ in range(300 if quick else 800):
         yield random_history(rng, 120)
 
 
